@@ -62,6 +62,17 @@ class AliasGen(Gen):
             return l
         return None
 
+    def form(self, f, ty):
+        """write callee f in one of the declaration forms (same function, other syntax; the -O 2 analysis treats each form separately)"""
+        x = self.r.random()
+        if x < 0.2 and f.params:
+            f.form = "forward"
+        elif x < 0.45 and any(p.ty == ty for p in f.params):
+            f.form = ("generic", ty)
+        if f.form is not None:
+            self.cells.add(("callee_form", f.form if isinstance(f.form, str) else f.form[0]))
+        return f
+
     def ref_mutator(self, ty):
         """function with one Referenz parameter that mutates it"""
         name = self.fresh("mut")
@@ -81,7 +92,7 @@ class AliasGen(Gen):
         if orig is None:
             return 0
         construct = r.choice(["init", "assign", "byvalue", "byvalue", "list_store", "field_store", "foreach", "return", "falls", "listlit", "boxing", "refcall", "same_twice",
-                              "same_twice", "part_ref", "part_ref", "global", "recursive"])
+                              "same_twice", "part_ref", "part_ref", "global", "recursive", "operator", "operator", "nested_ref", "nested_ref"])
         self.cells.add(("construct", construct, progcheck.tn(ty)))
         n0 = self.obs
         cp_name = self.fresh("k")
@@ -94,7 +105,7 @@ class AliasGen(Gen):
             stm = [Decl(cp_name, ty, other), Assign(cp, orig)]
         elif construct == "return":
             fn = self.fresh("id")
-            f = FuncDecl(fn, [Param("a_" + fn, ty)], ty, [Return(Var("a_" + fn, ty))])
+            f = self.form(FuncDecl(fn, [Param("a_" + fn, ty)], ty, [Return(Var("a_" + fn, ty))]), ty)
             self.prog.items.append(f)
             stm = [Decl(cp_name, ty, Call(f, [orig], ty))]
         elif construct == "falls":
@@ -107,6 +118,7 @@ class AliasGen(Gen):
             p = Param("a_" + fn, ty)
             body = self.mutation(Var(p.name, ty), r) + self.print_value(Var(p.name, ty))
             f = FuncDecl(fn, [p], NICHTS, body)
+            self.form(f, ty)
             self.prog.items.append(f)
             if not self.try_top([Print(Lit(T, "#%d:" % (self.obs + 1)), False), ExprStmt(Call(f, [orig], NICHTS))] + self.observe(orig)):
                 return 0
@@ -170,6 +182,7 @@ class AliasGen(Gen):
                 body = mut_b + [ExprStmt(Call(fi, [Var(a.name, ty)], NICHTS))]
             params = [a, b] if r.random() < 0.5 else [b, a]
             f = FuncDecl(fn, params, NICHTS, body)
+            self.form(f, ty)
             self.prog.items.append(f)
             if not self.try_top([Print(Lit(T, "#%d:" % (self.obs + 1)), False), ExprStmt(Call(f, [orig, orig], NICHTS))] + self.observe(orig)):
                 return 0
@@ -206,6 +219,7 @@ class AliasGen(Gen):
             params = [a, b] if r.random() < 0.5 else [b, a]
             args = [orig, part] if params[0] is a else [part, orig]
             f = FuncDecl(fn, params, NICHTS, body)
+            self.form(f, ty)
             self.prog.items.append(f)
             if not self.try_top([Print(Lit(T, "#%d:" % (self.obs + 1)), False), ExprStmt(Call(f, args, NICHTS))] + self.observe(orig)):
                 return 0
@@ -218,11 +232,64 @@ class AliasGen(Gen):
             f = FuncDecl(fn, [n, a, b], NICHTS, [])
             rec = Call(f, [Bin("minus", Var(n.name, Z), Lit(Z, 1), Z), Var(a.name, ty), Var(a.name, ty)], NICHTS)
             f.body = [If([(Bin("groesser", Var(n.name, Z), Lit(Z, 0), W), [ExprStmt(rec)])])] + self.mutation(Var(b.name, ty), r) + self.print_value(Var(a.name, ty))
+            self.form(f, ty)
             self.prog.items.append(f)
             other = self.declare(ty, self.nonempty_lit(ty) if ty != V else Cast(Lit(T, "anderes"), V))
             if other is None:
                 return 0
             if not self.try_top([Print(Lit(T, "#%d:" % (self.obs + 1)), False), ExprStmt(Call(f, [Lit(Z, r.randint(1, 2)), orig, other], NICHTS))] + self.observe(orig) + self.observe(other)):
+                return 0
+            self.obs += 1
+            return self.obs - n0
+        elif construct == "operator" and ty != V:
+            # an operator overload with a Referenz parameter changes its operand; applied to a by-value parameter inside a
+            # function it must change that function's copy only, applied to the holder itself it must change the holder
+            used = getattr(self, "used_ops", None)
+            if used is None:
+                used = self.used_ops = set()
+            free = [o for o in ("Betrag", "logisch nicht", "unäres minus") if (o, ty) not in used]
+            if not free:
+                return 0
+            op = r.choice(free)
+            used.add((op, ty))
+            on = self.fresh("op")
+            a = Param("a_" + on, ty, ref=True)
+            fo = FuncDecl(on, [a], Z, self.mutation(Var(a.name, ty), r) + [Return(Lit(Z, r.randint(1, 9)))], form=("operator", op))
+            self.prog.items.append(fo)
+            flavour = r.choice(["on_parameter", "on_parameter", "on_holder"])
+            self.cells.add(("operator", flavour, op, progcheck.tn(ty)))
+            if flavour == "on_holder":
+                if not self.try_top([Print(Lit(T, "#%d:" % (self.obs + 1)), False), Print(Call(fo, [orig], Z), True)] + self.observe(orig)):
+                    return 0
+            else:
+                wn = self.fresh("ow")
+                pw = Param("p_" + wn, ty)
+                fw = FuncDecl(wn, [pw], NICHTS, [Print(Call(fo, [Var(pw.name, ty)], Z), True)] + self.print_value(Var(pw.name, ty)))
+                self.form(fw, ty)
+                self.prog.items.append(fw)
+                if not self.try_top([Print(Lit(T, "#%d:" % (self.obs + 1)), False), ExprStmt(Call(fw, [orig], NICHTS))] + self.observe(orig)):
+                    return 0
+            self.obs += 1
+            return self.obs - n0
+        elif construct == "nested_ref":
+            # f(x by value, g(x as Referenz)): the Referenz is passed in a NESTED call inside another argument of the same call
+            gn, fn = self.fresh("ng"), self.fresh("nf")
+            ga = Param("a_" + gn, ty, ref=True)
+            fg = FuncDecl(gn, [ga], Z, self.mutation(Var(ga.name, ty), r) + [Return(Lit(Z, r.randint(1, 9)))])
+            self.form(fg, ty)
+            t, u = Param("t_" + fn, ty), Param("u_" + fn, Z)
+            flavour = r.choice(["read_only", "read_only", "assigning"])
+            self.cells.add(("nested_ref", flavour, progcheck.tn(ty)))
+            body = [Print(Var(u.name, Z), True)] + self.print_value(Var(t.name, ty))
+            if flavour == "assigning":
+                body += self.mutation(Var(t.name, ty), r) + self.print_value(Var(t.name, ty))
+            params = [t, u] if r.random() < 0.6 else [u, t]
+            ff = FuncDecl(fn, params, NICHTS, body)
+            self.form(ff, ty)
+            self.prog.items += [fg, ff]
+            inner = Call(fg, [orig], Z)
+            args = [orig, inner] if params[0] is t else [inner, orig]
+            if not self.try_top([Print(Lit(T, "#%d:" % (self.obs + 1)), False), ExprStmt(Call(ff, args, NICHTS))] + self.observe(orig)):
                 return 0
             self.obs += 1
             return self.obs - n0
